@@ -6,7 +6,7 @@
 export GOFLAGS=-mod=mod GOPROXY=off GOSUMDB=off GOTOOLCHAIN=local
 tier=${1:-quick}; shift
 ids="$@"; [ -z "$ids" ] && ids=$(ls /verif/seeded | grep -E '^C[0-9]+-[0-9]+$')
-declare -A ALSO=( [C02-2]="C05" [C04-1]="C12" [C14-2]="C07" [C11-1]="C05" [C13-2]="C04" [C13-4]="C12" [C11-3]="C05" [C11-4]="C05" [C04-3]="C09" [C04-4]="C13" [C09-4]="C07" [C08-4]="C08" [C02-4]="C12" [C19-3]="C11" [C03-3]="C14" [C03-4]="C14" [C13-5]="C11" [C09-5]="C10" [C11-6]="C10" [C09-6]="C07" [C14-5]="C08" [C14-6]="C16" [C04-5]="C07" [C04-6]="C13" [C08-5]="C06" [C15-6]="C17" [C06-5]="C07" [C03-6]="C13" [C02-6]="C12" [C02-5]="C06" )
+declare -A ALSO=( [C02-2]="C05" [C04-1]="C12" [C14-2]="C07" [C11-1]="C05" [C13-2]="C04" [C13-4]="C12" [C11-3]="C05" [C11-4]="C05" [C04-3]="C09" [C04-4]="C13" [C09-4]="C07" [C08-4]="C08" [C02-4]="C12" [C19-3]="C11" [C03-3]="C14" [C03-4]="C14" [C13-5]="C11" [C09-5]="C10" [C11-6]="C10" [C09-6]="C07" [C14-5]="C08" [C14-6]="C16" [C04-5]="C07" [C04-6]="C13" [C08-5]="C06" [C15-6]="C17" [C06-5]="C07" [C03-6]="C13" [C02-6]="C12" [C02-5]="C06" [C01-5]="C17" [C01-6]="C03" )
 # MATRIX_TAG: a second instance can run beside the first (own worktree, output directory and result file)
 wt=/tmp/wt/matrix$MATRIX_TAG; out=/tmp/matrix_out$MATRIX_TAG
 rm -rf $out; mkdir -p $out /tmp/wt
